@@ -20,6 +20,16 @@ def m_te_projective_new(I, fr, fn, a):
     projective point plus an on-curve assertion that the caller's obligation list must discharge."""
     x, y, t, z = a
     I.ctx.__dict__.setdefault('oncurve_asserts', []).append((x, y, t, z))
+    # second assertion of ark-ec's checked constructor: the curve configuration's subgroup predicate (crate code) on the affine point
+    try:
+        cand = [it for k, it in I.items.items() if it.kind == 'fn' and k.endswith('::is_in_correct_subgroup_assuming_on_curve') and k.startswith('ark_curve::edwards::')]
+    except Exception: cand = []
+    if len(cand) == 1 and all(isinstance(c, FE) for c in (x, y, z)):
+        aff = m_te_projective_to_affine(I, fr, fn, [Agg('Projective', [x, y, t, z])])
+        h = mirsym.Frame(mirsym.Item('fn', '<tmp>', '')); h.locals['p'] = aff
+        r = I.call_item(cand[0], [Ref(h, 'p', [])])
+        if r is False: raise Panic('ark_ec::twisted_edwards::Projective::new: assertion failed: p.is_in_correct_subgroup_assuming_on_curve()')
+        if r is not True: raise Unsupported(f'subgroup predicate returned {r!r}')
     return Agg('Projective', [x, y, t, z])
 def m_te_projective_new_unchecked(I, fr, fn, a): return Agg('Projective', list(a))
 def m_te_affine_new_unchecked(I, fr, fn, a): return Agg('Affine', list(a))
@@ -49,6 +59,7 @@ def ark_ec_models():
         (r'^ark_ec::twisted_edwards::Projective::<.*>::new$', m_te_projective_new),
         (r'^ark_ec::twisted_edwards::Projective::<.*>::new_unchecked$', m_te_projective_new_unchecked),
         (r'^ark_ec::twisted_edwards::Affine::<.*>::new_unchecked$', m_te_affine_new_unchecked),
+        (r'^ark_ec::twisted_edwards::Affine::<.*>::is_zero$', lambda I, fr, fn, a: (lambda p: models.fe_is_zero(I, p.fields[0]) and models.fe_eq(I, p.fields[1], FE.const('Fq', 1)))(models.D(I, a[0]) if not isinstance(models.D(I, a[0]), Ref) else I.deref(models.D(I, a[0])))),
         (r'^ark_ec::twisted_edwards::Affine::<.*>::zero$', lambda I, fr, fn, a: Agg('Affine', [FE.const('Fq', 0), FE.const('Fq', 1)])),
         (rf'^<{PA} as ark_ec::AffineRepr>::zero$', lambda I, fr, fn, a: Agg('Affine', [FE.const('Fq', 0), FE.const('Fq', 1)])),
         (rf'^<{PP} as ark_ff::Zero>::zero$', lambda I, fr, fn, a: Agg('Projective', [FE.const('Fq', 0), FE.const('Fq', 1), FE.const('Fq', 0), FE.const('Fq', 1)])),
